@@ -4,6 +4,21 @@ import json
 E2="bounded exhaustive input enumeration against a reference model (small-scope model checking of the implementation)"
 E1="exhaustive schedule exploration of the implementation (stateless DFS with state caching under a controlled cooperative scheduler)"
 CHECKS = {
+ "C06": dict(engine="E2", category="model_checking", technique=E2,
+   text="All strings up to length 5 (quick) / 6 (thorough) over the 23-symbol numeric alphabet plus a generated boundary list (2^k+-1 in four radixes, int64/uint64/double limits, every spelling class) in each inference mode {default,-S,-A,-O} and position {data field, JSON number, JSON string, DSL literal, five readers}, classified by the real inferrer and compared with a hand-written reference recogniser (exact values via big.Rat); agreement clause: typeof / is_* / asserting_* / arithmetic / sort -n judged against the single classification.",
+   note="Strings outside the alphabet/length bound are not explored; cells the docs leave open (double-range overflow, non-two's-complement hex overflow, -O with 8/9) are counted as unconstrained. Trusted: the reference recogniser in checks/c06/ref.go (cross-checked against strconv at run time)."),
+ "C08": dict(engine="E2", category="model_checking", technique="complete enumeration of the finite operand-kind matrix against rule predicates from the null-data reference",
+   text="The complete matrix: 12 value kinds (several witnesses each) x every binary operator/function with a disposition matrix, every unary function of the builtin table, variadic min/max over all kind triples, evaluated by direct BIF call and through the DSL; oracle = rule predicates written from the property text and reference-main-null-data.md (absent is the unit, empty-with-number, error absorbs, commutativity of result kind, is_*/asserting_* consistency, the documented (+) (&&) (||) tables cell by cell); all assignment lvalue forms x absent right-hand sides must leave record/oosvars/locals unchanged; accumulation idiom over all short record sequences against a reference fold.",
+   note="Cells no documented rule speaks about are evaluated and counted as unconstrained, not asserted. Two genuine defects are pinned by the repository's own regression expectations and listed as known findings."),
+ "C09": dict(engine="E2", category="model_checking", technique=E2,
+   text="All record lists up to length 5/6 over a 16-symbol key alphabet x all 15 flag spellings (one key), all lists up to length 3 x all comparator-kind pairs/triples (2-3 keys), >12-group ladders, DSL sort functions on all arrays/maps up to length 4/5, sort-within-records, top; predicate oracles (permutation of byte-identical records, key-less last in input order, identical key texts contiguous in input order, every pair of groups ordered under a reference comparator chain, documented stability) and comparator totality (reflexive/antisymmetric/transitive over all triples of a 47-value grid).",
+   note="Order among booleans/empties/strings under numeric collation and tie order of equal-value distinct-text keys are not asserted (docs leave them open). Trusted: reference comparators in checks/c09/ref.go."),
+ "C11": dict(engine="E2/E3", category="model_checking", technique=E2,
+   text="All record streams up to N=4 (all 9^N group/payload patterns) and N<=6 (group patterns) with identity-carrying ids x every count k in -(N+1)..N+1 and +k forms x group-by lists x filter expressions for head, tail, decimate, filter, grep, having-fields, sample, bootstrap, shuffle, tac, group-by, group-like, uniq -a, cat -n -g, nothing, skip-trivial-records through the real CLI in-process; oracle = list-slice reference plus the property's laws evaluated on the real code (head/tail partition, filter/filter -x partition, tac twice, permutation and multiset laws, group sizes).",
+   note="Which records the seeded random verbs pick is not asserted (only multiset laws). Streams longer than 6/8 records are outside the bound."),
+ "C13": dict(engine="E2", category="model_checking", technique=E2,
+   text="All left/right record lists up to length 3 (keys {1,2,empty,missing,01}, colliding non-join names, heterogeneous records, two-field keys incl. comma-containing values) x emit flag sets x --ignore-empty x -j/-l/-r namings x --lp/--rp/--lk variants x left-file formats, in unsorted and sorted (-s) mode, through the real CLI in-process against a nested-loop reference join; model-free laws: exactly-once under --ul --ur by record identity, --np removes exactly the paired, --ignore-empty never pairs empties, -s == unsorted as multisets on sorted inputs.",
+   note="Order among unpaired records is not asserted (docs leave it open); -s on unsorted input only: terminates, no false pair."),
  "C19": dict(engine="E4", category="fault_enumeration", technique="exhaustive crash-point enumeration: every prefix and torn write of the strace-logged syscall history of the real binary replayed on a directory model; positional fault injection on the real binary",
    text="For each scenario (verb x format x file list incl. subdirectory and empty files x gzip/zlib x mode) the real `mlr -I` is run under strace; the logged history of open/write/close/rename/chmod/unlink calls is replayed on an in-memory directory model at EVERY prefix and at byte truncations of every write; on each crash state every named file must hold its original bytes or the complete final bytes (which must decode to what the same command without -I prints for that file alone), transformed files form a prefix of the list, at most one temp file exists. The model is validated per scenario: full replay == real final directory, byte for byte and mode for mode. Positional faults (DSL errors per file/record, ragged CSV, EFBIG at every offset step via prlimit, failing rename via strace injection, unwritable directory under setpriv, refusals) must exit non-zero with a diagnostic, leave failing and later files byte-identical, earlier files committed, and no temp file on the normal error path.",
    note="Crash model = process stop with the kernel surviving (prefix of the syscall history); power-loss reordering is outside the claim. Trusted: strace's log, the 150-line directory model (validated against the real outcome on every scenario)."),
